@@ -20,7 +20,7 @@ RULE = ("clique covers from (a) random clique hypergraphs, (b) real covers produ
         "below the maximum; distinct = SHA-1 of the concrete cover")
 ASSUMPTIONS = ["vertex ids contiguous from 0 or 1 and every vertex occurs in the cover (as the property stipulates)",
                "probabilities compared at 1e-12"]
-HEADLINE = ["covers", "src_random", "src_eecc", "src_mpcc", "src_adversarial", "src_hub", "one_based", "absent_sizes_ge2", "size_ge9", "vertices_recounted", "pipeline_runs", "pipeline_motifs"]
+HEADLINE = ["covers", "src_random", "src_eecc", "src_mpcc", "src_adversarial", "src_hub", "src_regular", "one_based", "absent_sizes_ge2", "size_ge9", "vertices_recounted", "pipeline_runs", "pipeline_motifs"]
 REQUIRED = {t: {"src_random": 10, "src_eecc": 5, "src_mpcc": 5, "src_adversarial": 10, "one_based": 10,
                 "absent_sizes_ge2": 10, "pipeline_runs": 10, "size_ge9": 10, "hub_count_ge_256": 10} for t in ("quick", "thorough")}
 
@@ -37,8 +37,27 @@ def _contiguous(cover):
 
 
 def build_cover(rng, res):
-    src = rng.choice(["random", "random", "adversarial", "adversarial", "eecc", "mpcc", "hub"])
+    src = rng.choice(["random", "random", "adversarial", "adversarial", "eecc", "mpcc", "hub", "regular"])
     import gcmpy
+    if src == "regular":
+        # every vertex has the same profile (a single joint degree): disjoint k-cliques, a ring of 2-cliques, or both layered
+        kind = rng.choice(["disjoint", "ring", "layered"])
+        m = rng.randint(3, 12)
+        if kind == "disjoint":
+            s = rng.choice([2, 3, 4, 5])
+            cover = [list(range(i * s, (i + 1) * s)) for i in range(m)]
+        elif kind == "ring":
+            cover = [[i, (i + 1) % m] for i in range(m)]
+        else:
+            s = rng.choice([3, 4])
+            n = m * s
+            cover = [list(range(i * s, (i + 1) * s)) for i in range(m)] + [[i, (i + 1) % n] for i in range(n)]
+        res.count("src_regular")
+        if rng.random() < 0.4:
+            cover = [[v + 1 for v in c] for c in cover]
+            res.count("one_based")
+        rng.shuffle(cover)
+        return src, cover
     if src == "hub":
         # one vertex in very many cliques of one size (per-vertex counts beyond 255; every 12th hub beyond 65535)
         big = rng.random() < 0.08
@@ -150,9 +169,10 @@ def check_cover(res, cover, rng, path):
         res.count("pipeline_runs")
         tap = RandomTap(seed=rng.randrange(1 << 30), keep_log=False)
         with installed(tap, "jd", "fast"):
-            jds = sut("sample_jds_from_jdd", L.sample_jds_from_jdd, n)
-            if len(jds) != n:
-                res.violate("pipeline-sample-length", got=len(jds), want=n); return False
+            n_s = n if rng.random() < 0.5 else rng.choice([1, 2, 3, 5, 7, 10, 37, 100])      # any network size may be sampled
+            jds = sut("sample_jds_from_jdd", L.sample_jds_from_jdd, n_s)
+            if len(jds) != n_s:
+                res.violate("pipeline-sample-length", got=len(jds), want=n_s); return False
             for jd in jds:
                 if not (isinstance(jd, tuple) and len(jd) == len(sizes) and all(isinstance(x, int) and x >= 0 for x in jd)):
                     res.violate("pipeline-sample-entry-malformed", entry=repr(jd), cover=cover); return False
